@@ -89,7 +89,8 @@ def describe(tier):
         + "; orderings: default, (A,B,C), (C,B,A); presentation variants: every permutation of the factors of a product (<=4 "
         "factors, else rotations and reversal), re-nesting of products, every permutation of children and of parents of a "
         "distribution, applied at every node, plus everything reversed; PYTHONHASHSEED in "
-        + str(HASH_SEEDS[tier]),
+        + str(HASH_SEEDS[tier])
+        + (" (seeds other than 0 revisit every third shard)" if tier == "quick" else ""),
         "rule": "state = expression (dedup by exact structure); transitions = canonicalize on the state, on its canonical "
         "form and on each presentation variant, compared by object equality and text",
         "assumptions": ["object equality is dataclass equality of y0 expressions; variants are built with the raw constructors"],
@@ -228,6 +229,11 @@ def work(shard, tier, seed):
     if alpha == "construction":
         check_construction_order(res)
         return res
+    import os
+
+    hs = int(os.environ.get("PYTHONHASHSEED", "0") or 0)
+    if tier == "quick" and hs != 0 and (lo // 8) % 3:
+        return res  # quick: the other hash seeds revisit every third shard (seed 0 covers everything)
     ex = Explorer(alpha, depth, seed, tier=tier)
     ex.texts = []
     ex.run(res, lo, hi, on_state=on_state, on_transition=None)
